@@ -149,4 +149,53 @@ def spellCounts (input pred target : List (List Nat)) : Option Counts :=
              fn := (misspelled.filter (fun x => !restored.contains x)).length }
   | _, _, _ => none
 
+/-- `_group_words` for a GIVEN edit script of (input, pred) (any admissible answer of `edit::operations`) -/
+def groupWordsWith (ops : List (EKind × Nat × Nat)) (input pred : List (List Nat)) (matching : List Nat) : Option (List Nat) :=
+  let words := wordBoundaries input
+  if (wordBoundaries pred).isEmpty then some (List.range words.length) else
+  if words.isEmpty then some [] else
+  let merged := ops.filterMap (fun (k, i, _) =>
+    if k == .delete && isWsCl (input.getD i []) then some (wordIdxOf words i) else none)
+  let insertedAt := ops.filterMap (fun (k, i, j) =>
+    if k == .insert && isWsCl (pred.getD j []) then some (wordIdxOf words i) else none)
+  let inserted := fun w => (insertedAt.filter (· == w)).length
+  match groupLoop words.length merged inserted matching (words.length + 1) 0 0 [] with
+  | some (inIdx, predIdx, correct) =>
+    if inIdx == words.length && predIdx == (wordBoundaries pred).length then some correct else none
+  | none => none
+
+/-- the sub-results of one `_spelling_correction_tp_fp_fn` call that the property leaves open: the three word
+matchings (input/target, input/prediction, prediction/target) and the edit script of (input, prediction) -/
+structure SpellSub where
+  mit : List (Nat × Nat)
+  mip : List (Nat × Nat)
+  mpt : List (Nat × Nat)
+  ops : List (EKind × Nat × Nat)
+
+/-- are the sub-results admissible answers of `match_words` / `edit::operations`? -/
+def spellSubOk (input pred target : List (List Nat)) (sub : SpellSub) : Bool :=
+  let wi := splitAsciiWs input.flatten
+  let wp := splitAsciiWs pred.flatten
+  let wt := splitAsciiWs target.flatten
+  matchAccept wi wt sub.mit && matchAccept wi wp sub.mip && matchAccept wp wt sub.mpt &&
+    scriptAccept { swap := false, sid := true } input pred sub.ops
+
+/-- `_spelling_correction_tp_fp_fn` computed from given (admissible) sub-results; `none` = the closing assertion of
+`_group_words` fails -/
+def spellCountsWith (input pred target : List (List Nat)) (sub : SpellSub) : Option Counts :=
+  let wi := splitAsciiWs input.flatten
+  let wp := splitAsciiWs pred.flatten
+  let wt := splitAsciiWs target.flatten
+  let misspelled := (editedWords wi.length wt.length sub.mit).2
+  let changed := (editedWords wi.length wp.length sub.mip).1
+  let matchingPred := sub.mpt.map Prod.fst
+  let restored := sub.mpt.map Prod.snd
+  match groupWordsWith sub.ops input pred matchingPred with
+  | none => none
+  | some correct =>
+    some { empty := misspelled.isEmpty && changed.isEmpty,
+           tp := (misspelled.filter (fun x => restored.contains x)).length,
+           fp := (changed.filter (fun x => !correct.contains x)).length,
+           fn := (misspelled.filter (fun x => !restored.contains x)).length }
+
 end Tu
